@@ -120,7 +120,7 @@ class AffineTransform:
     def __eq__(self, other: object) -> bool:
         if not isinstance(other, AffineTransform):
             return False
-        return (self.A == other.A).all() and (self.b == other.b).all()
+        return np.array_equal(self.A, other.A) and np.array_equal(self.b, other.b)
 
     def __str__(self):
         return f"AffineTransform(A=\n{self.A},\nb={self.b})"
